@@ -347,7 +347,13 @@ protected:
         unaryEncVars[v-lb] = int( this->AddVar(0.0, 1.0, var::INTEGER) );
       }
     }
-    assert(map.size()==(size_t)nTaken);
+    if (map.size()!=(size_t)nTaken) {      // values outside the domain
+      for (const auto& veq: map)          // (not presolved): var!=value
+        if (veq.first<lb || veq.first>ub || !is_integer(veq.first))
+          this->NarrowVarBounds(
+                GET_CONSTRAINT_KEEPER(CondLinConEQ).GetResultVar(veq.second),
+                0.0, 0.0);
+    }
     std::vector<double> coefs(ub-lb+1, 1.0);
     this->AddConstraint(LinConEQ({coefs, unaryEncVars}, 1.0));
     unaryEncVars.push_back(var);
